@@ -207,8 +207,19 @@ class StoreJudge:
         else:
             self._ev_run = 0
         self._ev_t = self.now if op[0] == "ev" else None
+        # instants at which a departure is justified: expiry of the waiting delay (re-armed at every wake-up of the
+        # activation loop) or the put that fills the fleet
+        if not hasattr(self, "_legit"):
+            self._legit = set(); self._next_tmo = self.fdelay
+        if self.fdelay > 0:
+            while self._next_tmo <= self.now:
+                self._legit.add(self._next_tmo); self._next_tmo += self.fdelay
+        if op[0] == "put" and self.cap is not None and len(self.inside) == self.cap:
+            self._legit.add(self.now); self._next_tmo = self.now + self.fdelay
         if ready_ids:
             T = self.now; D = T - 2 * self.ftransit
+            if self.fdelay > 0 and D >= 0 and D not in self._legit:
+                self.v("C14", f"a trip left at t={D} (batch {ready_ids} delivered at t={T}) although neither the waiting delay expired then nor did the fleet reach its capacity", "early-departure")
             batch = []
             for iid in ready_ids:
                 e = next((x for x in self.inside if x["id"] == iid and x["ready_at"] >= INF), None)
